@@ -82,6 +82,11 @@ func registerStunStubs() {
 		}
 		return true
 	}
+	// NewLongTermIntegrity(username, realm, password) = MD5(username:realm:password): 16 unconstrained bytes
+	stubs[stunPath+".NewLongTermIntegrity"] = func(e *Engine, c *callCtx) bool {
+		c.set(e.nondetFreshSlice(c.st, "ltkey", 16))
+		return true
+	}
 	stubs[stunPath+".FingerprintValue"] = func(e *Engine, c *callCtx) bool {
 		c.set(e.freshInt(c.st, "crc", 32, false))
 		return true
